@@ -5,6 +5,7 @@ import Drv.Sync
 import Drv.Proto
 import Drv.Meta
 import Drv.Wire
+import Drv.Filter
 open Lean Drv
 
 /-- which repairs (`fix:` commits) the model follows; the driver always runs the repaired model,
@@ -23,6 +24,8 @@ def handle (j : Json) : Except String Json := do
   | "wire_dec" => hWireDec j
   | "wire_enc" => hWireEnc j
   | "frames" => hFrames j
+  | "filter" => hFilter j
+  | "patmatch" => hPatMatch j
   | "metasync" => hMetaSync j
   | "sendproto" => hSendProto j
   | "recvproto" => hRecvProto j
